@@ -240,7 +240,7 @@ func init() {
 				us = append(us, c09BFS(depth, s, n))
 			}
 			us = append(us, c09Race("close-old-vs-reconnect", bound+1), c09Race("two-closes-one-reconnect", bound+1))
-			us = append(us, c09Race("close-vs-peer", bound+1), c09Race("close-vs-peer-vs-connect", bound+1))
+			us = append(us, c09Race("close-vs-peer", bound), c09Race("close-vs-peer-vs-connect", bound+1))
 			us = append(us, c09Wire())
 			return us
 		},
